@@ -79,14 +79,22 @@ def _split_offset_div(tree):
     return found[0] if len(found) == 1 else None
 
 
+def _int_const(node):
+    if isinstance(node, ast.Constant) and isinstance(node.value, int) and not isinstance(node.value, bool):
+        return node.value
+    if isinstance(node, ast.UnaryOp) and isinstance(node.op, ast.USub):
+        v = _int_const(node.operand)
+        return None if v is None else -v
+    return None
+
+
 def _argmin_init(tree):
     f = lib._find_def(tree, "Rechunker.get_splits")
     if f is None:
         return None
     for n in f.body:
-        if isinstance(n, ast.Assign) and isinstance(n.targets[0], ast.Name) and n.targets[0].id == "argmin" \
-                and isinstance(n.value, ast.Constant):
-            return n.value.value
+        if isinstance(n, ast.Assign) and isinstance(n.targets[0], ast.Name) and n.targets[0].id == "argmin":
+            return _int_const(n.value)
     return None
 
 
